@@ -899,7 +899,7 @@ DIRECTED: T.List[T.Tuple[T.List[str], T.Dict[str, T.Any]]] = [
                 'libs.kind.3': 'static_library', 'libs.how': 'link_whole', 'libs.exe_whole': True}),
     # shared library including a generated .inc from a two-output generator (.inc + .c)
     (['generator'], {'generator.two': True, 'generator.two_suffix': 'inc', 'generator.libkind': 'shared_library',
-                     'generator.depends': 'none', 'generator.rely': False}),
+                     'generator.depends': 'none', 'generator.rely': False, 'unity': False}),
     # two captured outputs with the same stem in one directory
     (['ct_header'], {'ct_header.variant': 'capture-pair'}),
     (['subproject', 'genlist_chain'], {'genlist_chain.ct': True, 'genlist_chain.nested': True}),
